@@ -75,7 +75,7 @@ def _node(obj, path):
     return node
 
 
-def _call(channel, obj):
+def _call(channel, obj, defaults=True):
     """Feed obj through a channel. Returns ('ok', cfg) | ('error', message)."""
     import os
 
@@ -84,7 +84,7 @@ def _call(channel, obj):
     p = _parser()
     try:
         if channel == "object":
-            return "ok", p.parse_object(copy.deepcopy(obj))
+            return "ok", p.parse_object(copy.deepcopy(obj), defaults=defaults)
         if channel == "validate":
             # a configuration object tampered with after parsing, handed to validate()
             from jsonargparse import Namespace, dict_to_namespace
@@ -114,9 +114,9 @@ def _call(channel, obj):
                 return "error", str(ex)
             return "ok", cfg
         if channel == "parse_string":
-            return "ok", p.parse_string(json.dumps(obj))
+            return "ok", p.parse_string(json.dumps(obj), defaults=defaults)
         if channel == "cfg_text":
-            return "ok", p.parse_args(["--cfg", json.dumps(obj)])
+            return "ok", p.parse_args(["--cfg", json.dumps(obj)], defaults=defaults)
         if channel == "argv":
             argv = []
             sub = obj.get("subcommand")
@@ -130,7 +130,7 @@ def _call(channel, obj):
             if sub:
                 argv.append(sub)
                 argv += [f"--{kk}={json.dumps(vv)}" for kk, vv in (obj.get(sub) or {}).items()]
-            return "ok", p.parse_args(argv)
+            return "ok", p.parse_args(argv, defaults=defaults)
         if channel == "env":
             env = {}
             for k, v in obj.items():
@@ -142,7 +142,7 @@ def _call(channel, obj):
                     env.update({f"APP_G__{kk.upper()}": json.dumps(vv) for kk, vv in v.items()})
                 else:
                     env["APP_" + k.upper()] = json.dumps(v)
-            return "ok", p.parse_env(env)
+            return "ok", p.parse_env(env, defaults=defaults)
         raise RuntimeError(channel)
     except ArgumentError as ex:
         return "error", str(ex)
@@ -173,9 +173,17 @@ def _foreign_once(pos, kind, channel, name="zz"):
     return True
 
 
-def _required_once(key, how, channel):
+def _required_once(key, how, channel, defaults=True):
     obj = _valid()
-    if key == "subcommand+fit":
+    if how in ("section-removed", "section-emptied"):
+        # the required key was the only thing in the section of the selected subcommand: the section is absent or empty
+        if key != "fit.x" or channel == "validate":
+            return None
+        if how == "section-removed" or channel in ("argv", "env"):
+            del obj["fit"]
+        else:
+            obj["fit"] = {}
+    elif key == "subcommand+fit":
         del obj["subcommand"]
         del obj["fit"]
         if how == "none":
@@ -191,7 +199,9 @@ def _required_once(key, how, channel):
         return None  # 'null' on the command line / in the environment is a value, not an omission
     if channel == "validate" and key not in ("a", "g.b", "dc.a", "fit.x", "subcommand+fit"):
         return None
-    status, res = _call(channel, obj)
+    if not defaults and channel == "validate":
+        return None
+    status, res = _call(channel, obj, defaults)
     S.note("required")
     if status == "ok":
         return Fail("required-key:missing-but-accepted", key=key, how=how, channel=channel)
@@ -215,8 +225,8 @@ def tamper():
             args = ("f", pos, kind, channel, name)
         else:
             key = S.pick("required_key", REQUIRED_KEYS)
-            how = S.pick("how", REMOVAL_KINDS)
-            args = ("r", key, how, channel)
+            how = S.pick("how", REMOVAL_KINDS + ["section-removed", "section-emptied"])
+            args = ("r", key, how, channel, S.flag("defaults"))
         fn = _foreign_once if args[0] == "f" else _required_once
         if S.replaying is not None:
             return fn(*args[1:])
